@@ -1,9 +1,10 @@
 """C03 kernels: ray launch (optiland/rays/ray_generator.py) and pupil samplings (optiland/distribution.py),
-translated by py2coq (+ tools/py2coq_c03.py) into coq/Gen/RayGen.v and coq/Gen/Distrib.v (regenerated on every run)."""
+translated by py2coq (+ tools/py2coq_c03.py) into coq/Gen/Fields.v, coq/Gen/RayGen.v and coq/Gen/Distrib.v (regenerated on every run)."""
 from py2coq_c03 import C03Kernel
 
 RG = 'optiland/rays/ray_generator.py'
 DI = 'optiland/distribution.py'
+FI = 'optiland/fields.py'
 _R = ['Num.OpsC03']
 _K = dict(kclass=C03Kernel, requires=_R)
 
@@ -21,7 +22,14 @@ _OPTIC_T = {
 }
 _PX = {'self.optic.paraxial.EPL': 'num', 'self.optic.paraxial.EPD': 'num'}
 
+_FT = {'self.x_fields': 'list', 'self.y_fields': 'list'}
+
 MODULES = {
+    'Fields': [
+        dict(name='fld_max_field', file=FI, cls='FieldGroup', func='max_field', types=dict(_FT), **_K),
+        dict(name='fld_max_y_field', file=FI, cls='FieldGroup', func='max_y_field', types=dict(_FT), **_K),
+        dict(name='fld_max_x_field', file=FI, cls='FieldGroup', func='max_x_field', types=dict(_FT), **_K),
+    ],
     'RayGen': [
         dict(name='rg_z_offset', file=RG, cls='RayGenerator', func='_get_starting_z_offset',
              types=dict(_OPTIC_T), opaque_calls=dict(_PX), **_K),
